@@ -150,7 +150,11 @@ def run(prog: Program, rep, tier: str) -> None:
     if len(r) == 1:
         vv = ffn.resolved(r[0], r[0].value)
         ps = fn.params
-        ok = isinstance(vv, ast.Call) and dotted(vv.func) == "Scaling" and [U(a) for a in vv.args] == [f"Scaling.weights_from_nominal_values({q})" for q in ps[:3]]
+        if isinstance(vv, ast.Call) and dotted(vv.func) == "Scaling":
+            from .common import bind_args
+            b_ = bind_args(sc.methods["__init__"], vv)
+            ip = [p_ for p_ in sc.methods["__init__"].params if p_ != "self"]
+            ok = b_ is not None and [U(b_[k]) if isinstance(b_.get(k), ast.AST) else None for k in ip[:3]] == [f"Scaling.weights_from_nominal_values({q})" for q in ps[:3]]
     rep.check(ok, "nominal-weights", fn.qualname, short(r[0]) if r else "", "from_nominal_values normalises variable, constraint and objective values each with their own weight", fn.loc())
 
     grad_jac(prog, rep, sc)
@@ -159,74 +163,116 @@ def run(prog: Program, rep, tier: str) -> None:
 
 
 def grad_jac(prog: Program, rep, sc) -> None:
+    """from_grad_jac, by role.  var_weights = -W(|g|);  with a Jacobian: cons_weights = W(M) where M[row] is the maximum over the
+    stored entries of that row of ldexp(|data|, -var_weights[col]) - accumulated in a loop over all entries, either as
+    M[row] = max(M[row], e) or as `if e > M[row]: M[row] = e`; without one: an empty integer weight vector."""
     m = sc.methods["from_grad_jac"]
     ff = facts_for(m)
     g, j = m.params[:2]
-    rets = returns_of(m)
-    gen = [r for r in rets if ("is", j, "None") not in ff.at(r).facts]
-    if len(gen) != 1:
-        raise AnalysisError("from_grad_jac: no unique general return")
-    r = gen[0]
-    v = ff.resolved(r, r.value)
-    if not (isinstance(v, ast.Call) and dotted(v.func) == "Scaling" and len(v.args) == 2):
-        raise AnalysisError("from_grad_jac does not return Scaling(var_weights, cons_weights)")
-    vw, cw = v.args
     W = "Scaling.weights_from_nominal_values"
-    ok_v = U(vw) == f"-{W}(np.abs({g}))"
-    rep.check(ok_v, "gradjac-var-weights", m.qualname, "var_weights", f"var_weights = -(1 - e(|grad|)), so that the scaled gradient g*2^(-v) is normalised (found {U(vw)[:80]})", m.loc(r))
-    # cons weights = weights(max_values)
-    ok_c = isinstance(cw, ast.Call) and dotted(cw.func) == W and len(cw.args) == 1
-    acc_name = None
-    if ok_c:
-        # the accumulator variable as written in the source
-        raw = r.value.args[1] if isinstance(r.value, ast.Call) else None
-        st = [s for s in ff.order if isinstance(s.stmt, ast.Assign) and any(U(t) == U(raw) for t in s.stmt.targets)] if raw is not None else []
-        if st and isinstance(st[-1].stmt.value, ast.Call) and st[-1].stmt.value.args and isinstance(st[-1].stmt.value.args[0], ast.Name):
-            acc_name = st[-1].stmt.value.args[0].id
-    # follow plain aliases (`max_values = tmp`) back to the array that is accumulated into
-    for _ in range(4):
-        al = [s for s in ff.order if isinstance(s.stmt, ast.Assign) and len(s.stmt.targets) == 1 and U(s.stmt.targets[0]) == acc_name and not s.loops] if acc_name else []
-        if len(al) == 1 and isinstance(al[0].stmt.value, ast.Name):
-            acc_name = al[0].stmt.value.id
-        else:
-            break
-    rep.check(ok_c and acc_name is not None, "gradjac-cons-weights", m.qualname, "cons_weights", "cons_weights = 1 - e(row maximum of the column-prescaled Jacobian)", m.loc(r))
-    if acc_name is None:
+    Wg = f"{W}(np.abs({g}))"
+    jt = f"{j}.tocoo()"
+    sites = []
+    for r in returns_of(m):
+        v = ff.resolved(r, r.value)
+        if not (isinstance(v, ast.Call) and dotted(v.func) == "Scaling" and len(v.args) == 2 and not v.keywords):
+            raise AnalysisError("from_grad_jac does not return Scaling(var_weights, cons_weights)")
+        sites.append((r, v))
+    if not sites:
+        raise AnalysisError("from_grad_jac: no return")
+    gen_cw = None
+    for r, v in sites:
+        vw, cw = v.args
+        rep.check(U(vw) == f"-{Wg}", "gradjac-var-weights", m.qualname, "var_weights", f"var_weights = -(1 - e(|grad|)), so that the scaled gradient g*2^(-v) is normalised (found {U(vw)[:80]})", m.loc(r))
+        for alt in phi_alternatives(cw):
+            if isinstance(alt, ast.Call) and dotted(alt.func) == W and len(alt.args) == 1:
+                gen_cw = (r, alt)
+            else:
+                ok_e = np_call(alt, "zeros") and dtype_of(m, ff, r, alt) == "int"
+                rep.check(ok_e, "weights-are-integral", m.qualname, short(r), f"without constraints the constraint weights are an empty integer vector (found {U(alt)[:60]})", m.loc(r))
+        rep.check(dtype_of(m, ff, r, vw) == "int", "weights-are-integral", m.qualname, "var_weights", "the variable weights handed to Scaling are integer exponents", m.loc(r))
+    rep.check(gen_cw is not None, "gradjac-cons-weights", m.qualname, "cons_weights", "cons_weights = 1 - e(row maximum of the column-prescaled Jacobian)", m.loc())
+    if gen_cw is None:
         return
-    # accumulation loop
-    loops = [s for s in ff.order if isinstance(s.stmt, ast.For)]
-    acc_ok = False
+    # the accumulator: the array whose entries are stored to inside a loop and that reaches weights_from_nominal_values
+    stores = [s for s in ff.order if s.loops and isinstance(s.stmt, ast.Assign) and len(s.stmt.targets) == 1 and isinstance(s.stmt.targets[0], ast.Subscript)
+              and isinstance(s.stmt.targets[0].value, ast.Name)]
+    if len(stores) != 1:
+        raise AnalysisError(f"from_grad_jac: expected one store into the row-maximum accumulator inside a loop, found {len(stores)}")
+    s0 = stores[0]
+    st = s0.stmt
+    acc_name = st.targets[0].value.id
+    lp = s0.loops[-1]
+    env = ff.at(st).env
+    idx_txt = U(ff.resolved(st, st.targets[0].slice))
+    # row index of the entry and the entry value, by what the loop variables are bound to
+    row_txts, ent_txts = set(), set()
+    if isinstance(lp, ast.For):
+        it = ff.resolved(lp, lp.iter)
+        tgt = lp.target
+        kname = None
+        z = it
+        if isinstance(z, ast.Call) and dotted(z.func) == "enumerate" and z.args and isinstance(tgt, ast.Tuple) and len(tgt.elts) == 2:
+            kname, tgt, z = U(tgt.elts[0]), tgt.elts[1], z.args[0]
+        seqs = []
+        if isinstance(z, ast.Call) and dotted(z.func) == "zip":
+            seqs = list(zip(tgt.elts if isinstance(tgt, ast.Tuple) else [tgt], z.args))
+        elif isinstance(z, ast.Call) and dotted(z.func) == "range" and isinstance(lp.target, ast.Name):
+            kname = lp.target.id
+        else:
+            seqs = [(tgt, z)]
+        for el, src in seqs:
+            if isinstance(el, ast.Name):
+                txt = U(env.get(el.id, el))
+                if U(src) == f"{jt}.row":
+                    row_txts.add(txt)
+                if np_call(src, "ldexp"):
+                    ent_txts.add((txt, U(src)))
+        if kname is not None:
+            ktxt = U(env.get(kname, ast.Name(id=kname)))
+            row_txts.add(f"{jt}.row[{ktxt}]")
+            # entries addressed as prescaled[k]
+            for n_ in ast.walk(st):
+                if isinstance(n_, ast.Subscript) and U(ff.resolved(st, n_.slice)) == ktxt:
+                    b = ff.resolved(st, n_.value)
+                    if np_call(b, "ldexp"):
+                        ent_txts.add((U(ff.resolved(st, n_)), U(b)))
+    acc_ok = idx_txt in row_txts
+    # the stored value: max(acc[row], e) / np.maximum, or e under the condition acc[row] < e
+    val = ff.resolved(st, st.value)
+    old_txt = f"{U(ff.resolved(st, st.targets[0].value))}[{idx_txt}]"
+    old_raw = f"{acc_name}[{U(st.targets[0].slice)}]"
+    e_txt = None
+    if isinstance(st.value, ast.Call) and dotted(st.value.func) in ("max", "np.maximum") and len(st.value.args) == 2:
+        raws = [U(a) for a in st.value.args]
+        if old_raw in raws:
+            other = st.value.args[1 - raws.index(old_raw)]
+            e_txt = U(ff.resolved(st, other))
+    else:
+        e_txt = U(val)
+        guard = any(f[0] == "<" and f[2] == e_txt and (f[1].endswith(f"[{idx_txt}]")) for f in s0.facts)
+        acc_ok = acc_ok and guard
+    pres = [p for t, p in ent_txts if t == e_txt]
     pres_ok = False
-    dt = "unknown"
-    for s in ff.order:
-        st = s.stmt
-        if isinstance(st, ast.Assign) and len(st.targets) == 1 and isinstance(st.targets[0], ast.Subscript) and U(st.targets[0].value) == acc_name and s.loops:
-            lp = s.loops[-1]
-            if isinstance(lp, ast.For) and isinstance(lp.iter, ast.Call) and dotted(lp.iter.func) == "enumerate" and isinstance(lp.target, ast.Tuple):
-                i_, row_ = U(lp.target.elts[0]), U(lp.target.elts[1])
-                rows_src = U(ff.resolved(lp, lp.iter.args[0]))
-                val = st.value
-                if isinstance(val, ast.Call) and dotted(val.func) in ("max", "np.maximum") and len(val.args) == 2 and U(st.targets[0].slice) == row_:
-                    texts = [U(a) for a in val.args]
-                    if f"{acc_name}[{row_}]" in texts:
-                        other = [a for a in val.args if U(a) != f"{acc_name}[{row_}]"][0]
-                        if isinstance(other, ast.Subscript) and U(other.slice) == i_:
-                            pres = ff.resolved(st, other.value)
-                            jt = f"{j}.tocoo()"
-                            # prescaled = ldexp(|data|, -var_weights[cols])
-                            pres_ok = np_call(pres, "ldexp") and U(pres.args[0]) == f"np.abs({jt}.data)" and U(pres.args[1]) == f"--{W}(np.abs({g}))[{jt}.col]".replace("--", "--") or \
-                                (np_call(pres, "ldexp") and U(pres.args[0]) == f"np.abs({jt}.data)" and U(pres.args[1]) in (f"-(-{W}(np.abs({g})))[{jt}.col]", f"--{W}(np.abs({g}))[{jt}.col]"))
-                            acc_ok = rows_src == f"{jt}.row"
-                            rep.extra["gradjac_prescale"] = U(pres)[:160]
-        if isinstance(st, ast.Assign) and any(isinstance(t, ast.Name) and t.id == acc_name for t in st.targets) and not s.loops:
-            dt = dtype_of(m, ff, st, ff.resolved(st, st.value))
-    rep.check(acc_ok, "gradjac-row-maximum", m.qualname, f"{acc_name}[row] = max(...)", "the row maximum is accumulated as max(old, prescaled[i]) over all stored entries, indexed by the entry's row", m.loc())
+    if pres:
+        pe = ast.parse(pres[0], mode="eval").body
+        exps = (f"{Wg}[{jt}.col]", f"--{Wg}[{jt}.col]", f"-(-{Wg})[{jt}.col]", f"(-(-{Wg}))[{jt}.col]")
+        pres_ok = np_call(pe, "ldexp") and len(pe.args) == 2 and U(pe.args[0]) == f"np.abs({jt}.data)" and U(pe.args[1]) in exps
+        rep.extra["gradjac_prescale"] = pres[0][:160]
+    acc_ok = acc_ok and bool(pres)
+    # the loop visits every stored entry
+    dom_ok = isinstance(lp, ast.For) and jt in U(ff.resolved(lp, lp.iter))
+    rep.check(acc_ok and dom_ok, "gradjac-row-maximum", m.qualname, short(st), "the row maximum is accumulated as max(old, prescaled entry) over all stored entries, indexed by the entry's row", m.loc(st))
     rep.check(pres_ok, "gradjac-prescale", m.qualname, "prescaled_data", f"entries are pre-scaled by ldexp(|data|, -var_weights[col]) (found {rep.extra.get('gradjac_prescale')})", m.loc())
-    rep.check(dt == "float", "magnitudes-are-float", m.qualname, f"{acc_name} = ...",
-              f"the row-maximum accumulator is certainly float-kinded (found dtype kind: {dt}); an integer accumulator truncates every magnitude below one", m.loc())
-    vk = dtype_of(m, ff, r, vw)
-    ck = dtype_of(m, ff, r, cw)
-    rep.check(vk == "int" and ck == "int", "weights-are-integral", m.qualname, "Scaling(var_weights, cons_weights)", f"the weights handed to Scaling are integer exponents (kinds: {vk}, {ck})", m.loc(r))
+    # the accumulated array is what the weights are computed from, and it starts as float zeros
+    arg = gen_cw[1].args[0]
+    inits = [s for s in ff.order if not s.loops and isinstance(s.stmt, ast.Assign) and len(s.stmt.targets) == 1 and U(s.stmt.targets[0]) == acc_name]
+    feeds = len(inits) == 1 and U(arg) == U(ff.resolved(inits[0].stmt, inits[0].stmt.value))
+    dt = dtype_of(m, ff, inits[0].stmt, ff.resolved(inits[0].stmt, inits[0].stmt.value)) if inits else "unknown"
+    rep.check(feeds, "gradjac-cons-weights", m.qualname, f"{W}({acc_name})", "the constraint weights are computed from the accumulated row maxima", m.loc(gen_cw[0]))
+    rep.check(dt == "float" and bool(inits) and np_call(inits[0].stmt.value, "zeros", "zeros_like"), "magnitudes-are-float", m.qualname, short(inits[0].stmt) if inits else acc_name,
+              f"the row-maximum accumulator starts from zeros and is certainly float-kinded (found dtype kind: {dt}); an integer accumulator truncates every magnitude below one", m.loc())
+    rep.check(dtype_of(m, ff, gen_cw[0], gen_cw[1]) == "int", "weights-are-integral", m.qualname, "cons_weights", "the constraint weights handed to Scaling are integer exponents", m.loc(gen_cw[0]))
 
 
 def kkt(prog: Program, rep, sc) -> None:
@@ -324,7 +370,14 @@ def scale_symmetric_rule(prog: Program, rep) -> None:
     if len(acc) == 1:
         kind, q, Sname = acc[0]
         st = q.stmt
-        if kind == "loop":
+        if kind == "loop" and isinstance(q.loops[-1], ast.For) and isinstance(q.loops[-1].iter, ast.Call) and dotted(q.loops[-1].iter.func) == "zip" \
+                and isinstance(q.loops[-1].target, ast.Tuple) and len(q.loops[-1].target.elts) == len(q.loops[-1].iter.args):
+            # for col, val in zip(cols, data): S[col] += val
+            inner = q.loops[-1]
+            bind = {U(t_): s_ for t_, s_ in zip(inner.target.elts, inner.iter.args)}
+            ci, vi = bind.get(U(st.target.slice)), bind.get(U(st.value))
+            ok_acc = base_name(ci) is not None and same(ci.id, cols) and base_name(vi) is not None and same(vi.id, data)
+        elif kind == "loop":
             inner = q.loops[-1]
             k = U(inner.target) if isinstance(inner, ast.For) and isinstance(inner.target, ast.Name) else None
             dom = U(fs.resolved(inner, inner.iter)) if isinstance(inner, ast.For) else ""
@@ -384,11 +437,12 @@ def scale_symmetric_rule(prog: Program, rep) -> None:
     ok_exit = bool(rets)
     for r in rets:
         sr = fs.at(r)
-        if lp in sr.loops:
+        if lp in sr.loops or zero_fact(sr.facts):
+            # inside the sweep, or after it under a flag that is only set where W is all zero
             ok_exit = ok_exit and zero_fact(sr.facts)
         else:
             ok_exit = ok_exit and bool(breaks) and all(zero_fact(b.facts) for b in breaks) and bool(lp.orelse) and always_leaves(lp.orelse) and isinstance(lp.orelse[-1], ast.Raise)
-    if not any(lp not in fs.at(r).loops for r in rets):
+    if rets and all(lp in fs.at(r).loops for r in rets):
         # nothing is returned after the loop: falling out of it (sweeps exhausted) must raise
         after = [q for q in fs.order if q.index > outer[0].index and not q.loops and lp not in q.loops]
         tail_raises = (bool(lp.orelse) and always_leaves(lp.orelse) and isinstance(lp.orelse[-1], ast.Raise)) or any(isinstance(q.stmt, ast.Raise) for q in after)
